@@ -406,6 +406,83 @@ def check_lifecycle(r, ctx):
     ctx.lc, ctx.lct, ctx.lcclear = {}, {}, set()
 
 
+_hexstr = re.compile(r'"((?:\\x[0-9a-f]{2})*)"')
+
+
+def check_syscalls(r, exe):
+    """syscall-level oracle: the loader is run under strace; between the two sentinel probes that
+    bracket a request, the only path the process may hand to the kernel is the one
+    safe_join(configured base, name) designates (model: Loader.reads), opened once; any open of a
+    path outside the base is a violation however the code that did it is spelled"""
+    import shutil, tempfile
+    if shutil.which("strace") is None:
+        r.extra["syscall_oracle"] = "skipped: strace not available"
+        return
+    fd, trace_path = tempfile.mkstemp(prefix="mjc17-", suffix=".strace")
+    os.close(fd)
+    try:
+        rc, out, err = r.harness("strace", ["-f", "-xx", "-s", "65536", "-e", "trace=file", "-o", trace_path, exe, "trace", r.tier])
+        if rc != 0:
+            r.broken.append(f"strace/harness trace run exited {rc}: {err[-300:]}")
+            return
+        trace = open(trace_path, errors="replace").read().splitlines()
+    finally:
+        os.remove(trace_path)
+    bases, reqs = {}, {}
+    for line in out.splitlines():
+        if line.startswith("#base"):
+            f = line.split(" ")
+            bases[f[1]] = unpct(f[2])
+        elif line.startswith("tr "):
+            case, res = line.split("\t", 1)
+            idx, hook, result = res.split(" ", 2)
+            reqs[int(idx)] = (case, hook, result)
+    base_canon = os.path.realpath(bases["abs"])
+    cwd = os.path.dirname(base_canon)
+    seen, cur = {}, None
+    for line in trace:
+        m = re.match(r"^\d+\s+(\w+)\(", line)
+        if not m:
+            continue
+        sysname = m.group(1)
+        paths = [bytes.fromhex(x.replace("\\x", "")).decode("utf-8", "surrogateescape") for x in _hexstr.findall(line)]
+        if any(p.startswith("/MJ17-B/") for p in paths):
+            cur = int([p for p in paths if p.startswith("/MJ17-B/")][0][8:])
+            seen[cur] = []
+        elif any(p.startswith("/MJ17-E/") for p in paths):
+            cur = None
+        elif cur is not None:
+            seen[cur] += [(sysname, p) for p in paths if p != ""]
+    if len(seen) != len(reqs):
+        r.broken.append(f"syscall oracle: {len(reqs)} requests but {len(seen)} bracketed spans in the trace")
+    for idx, (case, hook, result) in reqs.items():
+        name = unpct(case.split(" ")[2])
+        r.count(case, nontrivial_name(name))
+        r.hist["stream"]["tr"] += 1
+        got = seen.get(idx, [])
+        hook_p = unpct(hook[1:]) if hook.startswith("+") else None
+        want = [("openat", hook_p)] if hook_p is not None and "\0" not in hook_p else []
+        r.hist["syscalls-per-request"][len(got)] += 1
+        for sysname, p in got:
+            q = p if p.startswith("/") else cwd + "/" + p
+            ab, st = lex(q)
+            if not beneath(lex_str(ab, st), base_canon):
+                if sysname in ("open", "openat", "openat2", "creat"):
+                    r.oracle_failure(case, f"while serving this name the loader opened {p!r}, which is outside the base {base_canon!r}", "syscall:open-outside-base")
+                else:
+                    r.model_disagreement(case + " [syscall]", f"{sysname}({p!r}) outside the base", f"model: the loader touches only {want}")
+        if got != want:
+            r.model_disagreement(case + " [syscall]", f"file-system calls {got[:4]}", f"model (Loader.reads): {want}")
+        if result.startswith("f:"):
+            for mk in result[2:].split("+"):
+                kp = mk.split(":", 1)
+                if len(kp) != 2 or kp[0] != "B" or not beneath(untilde(kp[1]), base_canon):
+                    r.oracle_failure(case, f"loader returned content that is not a file beneath the base: {mk!r}", "trace:outside-base")
+        elif result.startswith("panic"):
+            r.oracle_failure(case, f"panic {result!r}", "trace:panic")
+    r.extra["syscall_oracle"] = f"{len(reqs)} requests traced"
+
+
 def run(r):
     r.rule = ("template names = all '/'-joins of 1..4 (quick; + 20000 sampled 5-joins) or 1..5 (thorough) segments over the alphabet "
               "{'', '.', '..', '...', 'a', '.a', 'a.', 'a..b', 'a\\\\b', '..\\\\a', NUL, '%2e%2e', U+2024 x2, U+FF0E x2, 'a' x 256, 'only_outside.txt' (a plain name that exists in every ancestor of the base, never beneath it)} "
@@ -425,7 +502,6 @@ def run(r):
     exe = r.cargo_build("c17")
     if exe is None:
         return
-    os.makedirs(os.path.join(os.path.dirname(os.path.dirname(os.path.dirname(os.path.abspath(__file__)))), ".build", "c17"), exist_ok=True)
     n = 1 if r.tier == "quick" else 16
     ctx = Ctx()
     for k in range(n):
@@ -447,8 +523,12 @@ def run(r):
         check_lifecycle(r, ctx)
         if n > 1:
             r.log(f"chunk {k + 1}/{n}: evaluations {r.evaluations}")
+    check_syscalls(r, exe)
     r.exhaustive = (r.tier == "thorough")
     r.extra["scratch_tree"] = ctx.tree
+    if ctx.tree and "/mjc17-" in ctx.tree and ctx.tree.endswith("/tree"):
+        import shutil
+        shutil.rmtree(os.path.dirname(ctx.tree), ignore_errors=True)
     found = sum(v for k, v in r.hist["loader:get"].items() if k == "found")
     if found == 0 or r.hist["safe_join"]["some"] == 0 or r.hist["safe_join"]["none"] == 0:
         r.broken.append("vacuous run: the loader never returned a file, or safe_join never accepted / never rejected a name")
@@ -461,6 +541,8 @@ def replay(r, path):
         if not case:
             continue
         case = case.split(" [")[0]
+        if case.startswith("tr "):
+            case = "ld " + case[3:]
         rc, out, err = r.harness(exe, ["one"] + case.split(" "))
         print("engine:", out.strip())
         f = case.split(" ")
@@ -476,4 +558,9 @@ def replay(r, path):
             print("model:", model[0] if model else None)
             if f[0] == "sj":
                 print("python:", repr(py_safe_join(unpct(f[1]), unpct(f[2]))))
+    rc, out2, err = r.harness(exe, ["bases"])
+    tree = [unpct(l.split(" ")[1]) for l in out2.splitlines() if l.startswith("#tree")]
+    if tree and "/mjc17-" in tree[0] and tree[0].endswith("/tree"):
+        import shutil
+        shutil.rmtree(os.path.dirname(tree[0]), ignore_errors=True)
     return 0
